@@ -388,6 +388,27 @@ Definition idem_hyp_checks alnum cfg (segs : list seg) : list bool :=
 
 Definition idem_hypb alnum cfg segs : bool := forallb (fun b : bool => b) (idem_hyp_checks alnum cfg segs).
 
+(* the same without check 5: that the second run ignores nothing follows from the others (FormatIdemProofs.second_run_ignores_nothing) *)
+Definition idem_hyp_checks_min alnum cfg (segs : list seg) : list bool :=
+  let F := fm_final alnum cfg segs in
+  let l4 := fm_l4 alnum segs in
+  match lex_segments (reconstruct (cfg_rs cfg) F) with
+  | None => [false]
+  | Some segs2 =>
+      [ true;
+        list_eqb bytes_eqb (map seg_ws segs2) (glue_list (cfg_rs cfg) false F)
+        && list_eqb bytes_eqb (map seg_content segs2) (map (fun p : ftoken => t_content (fst p)) F);
+        list_eqb RawTokenType_eqb (map seg_ty segs2) (map seg_ty segs);
+        forallb not_asmb (map seg_ty segs);
+        forallb negb (fm_marks segs);
+        negb (c_fms cfg) || forallb (fun tok => negb (is_ml_string (t_ty tok))) (fm_toks segs);
+        forallb (fun x : (nat * bool) * ftoken =>
+                   snd (fst x) || eof_set (fm_lines segs) (length segs) (fst (fst x)) (t_ty (fst (snd x))))
+                (combine (combine (seq 0 (length segs)) (decided_marks alnum cfg segs)) l4);
+        list_eqb N.eqb (sp_list (fm_l4 alnum segs2)) (sp_list l4) ]
+  end.
+Definition idem_hypb_min alnum cfg segs : bool := forallb (fun b : bool => b) (idem_hyp_checks_min alnum cfg segs).
+
 (* ------------------------------------------------------------------ *)
 (* Acceptance predicate of Proofs/LexerCrlfProofs.v (lex_crlf) / FormatCrlfLinkProofs.v (format_crlf_input_linked), evaluated by the
    driver unit `crlfhyp`: no token text contains a LF or a CR; a directive token has its closing delimiter
